@@ -97,52 +97,87 @@ def func(mod, name, rel):
 
 
 def replace_chain(stmts, what):
-    """word = word.replace(A, B) ... return word -> [(A, B)]"""
-    out = []
+    """word = word.replace(A, B) ... return word   or   return word.replace(A, B).replace(C, D)   -> [(A, B), ...] in application order"""
+    def is_replace(c):
+        return (isinstance(c, ast.Call) and isinstance(c.func, ast.Attribute) and c.func.attr == 'replace' and len(c.args) == 2 and not c.keywords
+                and all(isinstance(a, ast.Constant) and isinstance(a.value, str) for a in c.args))
+
+    def chain(v, var):
+        """pairs of a chain  var.replace(..).replace(..)  (innermost first), or None"""
+        acc = []
+        while is_replace(v):
+            acc.append((v.args[0].value, v.args[1].value))
+            v = v.func.value
+        if isinstance(v, ast.Name) and (var is None or v.id == var):
+            return list(reversed(acc)), v.id
+        return None, None
+    out, var = [], None
     for st in stmts:
+        if isinstance(st, ast.Expr) and isinstance(st.value, ast.Constant) and isinstance(st.value.value, str):
+            continue            # a docstring / string comment
         if isinstance(st, ast.Return):
-            if not isinstance(st.value, ast.Name):
+            pairs, v = chain(st.value, var)
+            if pairs is None:
                 raise Fail(f'{what}: unsupported return')
-            return out
-        ok = (isinstance(st, ast.Assign) and isinstance(st.value, ast.Call) and isinstance(st.value.func, ast.Attribute)
-              and st.value.func.attr == 'replace' and len(st.value.args) == 2
-              and all(isinstance(a, ast.Constant) and isinstance(a.value, str) for a in st.value.args))
-        if not ok:
-            raise Fail(f'{what}: unsupported statement')
-        out.append((st.value.args[0].value, st.value.args[1].value))
+            return out + pairs
+        if isinstance(st, ast.Assign) and len(st.targets) == 1 and isinstance(st.targets[0], ast.Name):
+            pairs, v = chain(st.value, var)
+            if pairs is not None and pairs and st.targets[0].id == v:
+                var = v
+                out += pairs
+                continue
+        raise Fail(f'{what}: unsupported statement')
     raise Fail(f'{what}: no return')
 
 
 def generate(repo):
+    """(text, problems): every group of definitions is read independently; a group that cannot be read is left out of the file (so only the
+    Coq files that use it stop building) and reported in `problems`"""
     out = ['(* GENERATED by translate/gen_tables.py from the repository source - do not edit *)',
            'From Coq Require Import List NArith.', 'Import ListNotations.', 'Open Scope N_scope.', '']
-    cat = module(repo, 'depccg/cat.py')
-    puncts = str_list(assigned(cat, 'punctuations', 'cat.py'), 'cat.punctuations')
-    specials = char_class(assigned(cat, 'cat_split', 'cat.py'), 'cat.cat_split')
-    out.append(f'Definition puncts : list (list N) := {lits(puncts)}.   (* cat.punctuations = {puncts!r} *)')
-    out.append(f'Definition specials : list N := [{";".join(str(ord(c)) for c in specials)}].   (* cat.cat_split class {"".join(specials)!r} *)')
-
-    utils = module(repo, 'depccg/utils.py')
-    norm, rest = if_chain_table(func(utils, 'normalize', 'utils.py'), 'utils.normalize')
-    if not (len(rest) == 1 and isinstance(rest[0], ast.Return) and isinstance(rest[0].value, ast.Name)):
-        raise Fail('utils.normalize: unsupported tail')
-    den, rest = if_chain_table(func(utils, 'denormalize', 'utils.py'), 'utils.denormalize')
-    den_repl = replace_chain(rest, 'utils.denormalize')
     pairs = lambda t: '[' + ';'.join(f'({lit(a)},{lit(b)})' for a, b in t) + ']'
-    out.append(f'Definition normalize_table : list (list N * list N) := {pairs(norm)}.')
-    out.append(f'Definition denormalize_table : list (list N * list N) := {pairs(den)}.')
-    out.append(f'Definition denormalize_replace : list (list N * list N) := {pairs(den_repl)}.')
+    problems = []
 
-    prolog = module(repo, 'depccg/printer/prolog.py')
-    out.append(f'Definition prolog_op_mapping : list (list N * list N) := {pairs(dict_str_str(assigned(prolog, "_op_mapping", "prolog.py"), "_op_mapping"))}.')
-    out.append(f'Definition prolog_ja_combinators : list (list N * list N) := {pairs(dict_str_str(assigned(prolog, "_ja_combinators", "prolog.py"), "_ja_combinators"))}.')
+    def group(name, fn):
+        try:
+            out.extend(fn())
+        except Fail as e:
+            problems.append(f'{name}: {e}')
+            out.append(f'(* group {name} could not be read from the source: see the translator output *)')
 
-    jar = module(repo, 'depccg/tools/ja/reader.py')
-    out.append(f'Definition ja_reader_combinators : list (list N) := {lits(sorted(str_list(assigned(jar, "combinators", "ja/reader.py"), "ja reader combinators")))}.')
+    def g_cat():
+        cat = module(repo, 'depccg/cat.py')
+        puncts = str_list(assigned(cat, 'punctuations', 'cat.py'), 'cat.punctuations')
+        specials = char_class(assigned(cat, 'cat_split', 'cat.py'), 'cat.cat_split')
+        return [f'Definition puncts : list (list N) := {lits(puncts)}.   (* cat.punctuations = {puncts!r} *)',
+                f'Definition specials : list N := [{";".join(str(ord(c)) for c in specials)}].   (* cat.cat_split class {"".join(specials)!r} *)']
 
-    pr = module(repo, 'depccg/printer/__init__.py')
-    out.append(f'Definition formatter_keys : list (list N) := {lits(dict_keys(assigned(pr, "_formatters", "printer/__init__.py"), "_formatters"))}.')
-    return '\n'.join(out) + '\n'
+    def g_utils():
+        utils = module(repo, 'depccg/utils.py')
+        norm, rest = if_chain_table(func(utils, 'normalize', 'utils.py'), 'utils.normalize')
+        if not (len(rest) == 1 and isinstance(rest[0], ast.Return) and isinstance(rest[0].value, ast.Name)):
+            raise Fail('utils.normalize: unsupported tail')
+        den, rest = if_chain_table(func(utils, 'denormalize', 'utils.py'), 'utils.denormalize')
+        den_repl = replace_chain(rest, 'utils.denormalize')
+        return [f'Definition normalize_table : list (list N * list N) := {pairs(norm)}.',
+                f'Definition denormalize_table : list (list N * list N) := {pairs(den)}.',
+                f'Definition denormalize_replace : list (list N * list N) := {pairs(den_repl)}.']
+
+    def g_prolog():
+        prolog = module(repo, 'depccg/printer/prolog.py')
+        return [f'Definition prolog_op_mapping : list (list N * list N) := {pairs(dict_str_str(assigned(prolog, "_op_mapping", "prolog.py"), "_op_mapping"))}.',
+                f'Definition prolog_ja_combinators : list (list N * list N) := {pairs(dict_str_str(assigned(prolog, "_ja_combinators", "prolog.py"), "_ja_combinators"))}.']
+
+    def g_jareader():
+        jar = module(repo, 'depccg/tools/ja/reader.py')
+        return [f'Definition ja_reader_combinators : list (list N) := {lits(sorted(str_list(assigned(jar, "combinators", "ja/reader.py"), "ja reader combinators")))}.']
+
+    def g_formatters():
+        pr = module(repo, 'depccg/printer/__init__.py')
+        return [f'Definition formatter_keys : list (list N) := {lits(dict_keys(assigned(pr, "_formatters", "printer/__init__.py"), "_formatters"))}.']
+    for name, fn in (('cat', g_cat), ('utils', g_utils), ('prolog', g_prolog), ('ja_reader', g_jareader), ('formatters', g_formatters)):
+        group(name, fn)
+    return '\n'.join(out) + '\n', problems
 
 
 def write_if_changed(path, text):
@@ -156,8 +191,9 @@ def write_if_changed(path, text):
 
 if __name__ == '__main__':
     repo, dst = sys.argv[1], sys.argv[2]
-    try:
-        txt = generate(repo)
-    except Fail as e:
-        sys.exit(f'translator(gen_tables): unsupported or missing construct: {e}')
+    txt, problems = generate(repo)
     write_if_changed(os.path.join(dst, 'GenTables.v') if os.path.isdir(dst) else dst, txt)
+    # exit status 0 even when a group is missing: the tables are shared by all checks, and only the checks whose Coq files use the missing
+    # definitions must break (their build does, naming the missing constant); the reason is printed for the evidence
+    for p in problems:
+        print(f'PARTIAL translator(gen_tables): unsupported or missing construct: {p}')
